@@ -37,6 +37,24 @@ Proof.
   unfold bal, create_account, get; cbn. destruct (N.eqb_spec b a); subst; reflexivity.
 Qed.
 
+(** code *)
+Lemma code_add_bal s a v b : code (add_bal s a v) b = code s b.
+Proof. unfold code, add_bal. rewrite get_upd. destruct (N.eqb_spec b a); subst; reflexivity. Qed.
+Lemma code_sub_bal s a v b : code (sub_bal s a v) b = code s b.
+Proof. apply code_add_bal. Qed.
+Lemma code_set_nonce s a n b : code (set_nonce s a n) b = code s b.
+Proof. unfold code, set_nonce. rewrite get_upd. destruct (N.eqb_spec b a); subst; reflexivity. Qed.
+Lemma code_transfer s f t v b : code (transfer s f t v) b = code s b.
+Proof. unfold transfer. now rewrite code_add_bal, code_sub_bal. Qed.
+
+Lemma bal_transfer s f t v b :
+  bal (transfer s f t v) b = bal s b - (if N.eqb b f then v else 0) + (if N.eqb b t then v else 0).
+Proof.
+  unfold transfer. rewrite bal_add_bal. destruct (N.eqb_spec b t) as [Heq|Hne].
+  2: rewrite bal_sub_bal; destruct (N.eqb_spec b f) as [Heq|]; [subst b|]; lia.
+  subst b. rewrite bal_sub_bal. destruct (N.eqb_spec t f) as [Heq|]; [subst t|]; lia.
+Qed.
+
 (** nonces *)
 Lemma nonce_add_bal s a v b : nonce (add_bal s a v) b = nonce s b.
 Proof. unfold nonce, add_bal. rewrite get_upd. destruct (N.eqb_spec b a); subst; reflexivity. Qed.
